@@ -30,6 +30,8 @@ def eval_texts(ctx, cs, n_sent, n_mut, n_soup, n_bytes, objs_per=1):
     for t in FIXED_TEXTS:
         for o in SMALL_OBJS[:3]:
             cs.eval(t, o, 'text-fixed')
+    for (t, o) in CORPUS:
+        cs.eval(t, o, 'corpus')
     # a sentence with something at its very ends: white space (ignored) or anything else (an error)
     EDGE = ['\x00', '\x07', '\x1b', '\x7f', '\u200b', '\ufeff', '\u00ad', '\ue000', '\u2060', '\U000e0001', '\u200e', '\u061c',
             '\t', '\r', '\n', '\x0b', '\x0c', ' ', '\u0085', '\u00a0', '\u1680', '\u2003', '\u2028', '\u2029', '\u202f', '\u205f', '\u3000',
@@ -70,6 +72,8 @@ def leak_contexts(leaf_text):
 
 def check_C10(ctx):
     cs = CaseSet()
+    for (t, o) in CORPUS:
+        cs.eval(t, o, 'corpus')
     lits = [('null',), ('bool', 'true'), ('bool', 'false')]
     fam_leaf_exh(cs, ctx.rng, ops=['EQ', 'NE'], literals=lits, fam='leaf-exh-null-bool')
     fam_pr_exh(cs, ctx.rng)
@@ -145,6 +149,8 @@ def rand_num_attr(rng, near=None):
 
 def check_C03(ctx):
     cs = CaseSet()
+    for (t, o) in CORPUS:
+        cs.eval(t, o, 'corpus')
     lits = [('long', l) for l in LONG_LITS] + [('double', d) for d in DOUBLE_LITS]
     fam_leaf_exh(cs, ctx.rng, ops=REL, literals=lits, attrs=INT_ATTRS + FLOAT_ATTRS + NONNUM, fam='num-pool')
     # random literals with attributes near them, inside compounds too
@@ -386,6 +392,8 @@ def fail_compounds(ctx, cs, n, fam='shape-fail'):
 
 def check_C06(ctx):
     cs = CaseSet()
+    for (t, o) in CORPUS:
+        cs.eval(t, o, 'corpus')
     fam_leaf_exh(cs, ctx.rng, stride=ctx.n(3, 1))
     fail_compounds(ctx, cs, ctx.n(1500, 40000))
     # sticky failure: something after the first failing comparison
@@ -404,6 +412,8 @@ def check_C06(ctx):
 
 def check_C16(ctx):
     cs = CaseSet()
+    for (t, o) in CORPUS:
+        cs.eval(t, o, 'corpus')
     fam_leaf_exh(cs, ctx.rng, stride=ctx.n(2, 1))
     fam_pr_exh(cs, ctx.rng)
     fail_compounds(ctx, cs, ctx.n(1500, 40000), fam='shape-reached')
@@ -1032,13 +1042,20 @@ def check_C13(ctx):
     for _ in range(ctx.n(100, 2000)):
         q, info, text = random_sentence(ctx.rng, 4)
         hs.append(cs.hist(text, rand_history(ctx, info, 6), 'hist'))
+    # shared sub-objects: one map value reachable by several paths
+    sub = {'a': I(1), 'b': {'c': I(2)}, 's': S('v')}
+    shared = [obj({'x': sub, 'y': sub, 'z': {'w': sub}}), obj({'x': {'b': {'c': I(2)}}, 'y': {'c': I(2)}, 'n': {'x': {'c': I(2)}}}), obj({'x': {}, 'y': {}, 'n': {'x': {}}})]
+    for o in shared:
+        for t in ['x.a eq 1 and y.a eq 1', 'x.b.c eq 2 or z.w.b.c eq 2', 'x.q.r eq 1 or y.q.r pr', 'x.s eq "V" and z.w.s co "v"', 'x.b.c in [1,2] and y.c in [2]',
+                  'n.x.c eq 2', 'x.a.b.c eq 1', 'y.zz pr', 'x pr and y pr', 'x.b.c gt null', 'x eq 1 or y.b eq 2', 'z.w.b.q.r eq 1 or x.b.q eq null']:
+            cs.evals(t, o, 'shared-subobjects')
     res = ctx.run(cs)
-    ctx.compare([c for c in cs.cases if c.kind == 'eval'], res, ['verdict', 'err'])
+    ctx.compare([c for c in cs.cases if c.kind in ('eval', 'evals')], res, ['verdict', 'err'])
     for c in cs.cases:
         io = res.impl.get(c.id)
-        if c.kind == 'eval' and io and io.get('frame') != '1':
+        if c.kind in ('eval', 'evals') and io and io.get('frame') != '1':
             ctx.violation('the input object was modified by the call', [c], impl=io)
-    ctx.extra['not_modelled'] = 'aliasing through values retained by a diagnostic (kept, never written); sharing between sub-objects is not generated (objects are trees)'
+    ctx.extra['not_modelled'] = 'aliasing through values retained by a diagnostic (kept, never written)'
     spread_samples(ctx, cs, res)
 
 CHECKS.update({'C05': check_C05, 'C20': check_C20, 'C07': check_C07, 'C11': check_C11, 'C13': check_C13})
